@@ -3,10 +3,7 @@
 //! calling thread every operation is passed straight through.
 
 pub use core::sync::atomic::Ordering;
-pub use core::sync::atomic::{
-    compiler_fence, AtomicBool, AtomicI16, AtomicI32, AtomicI64, AtomicI8, AtomicIsize, AtomicPtr, AtomicU16,
-    AtomicU32, AtomicU64, AtomicU8,
-};
+pub use core::sync::atomic::{compiler_fence, AtomicBool, AtomicI16, AtomicI8, AtomicPtr, AtomicU16, AtomicU8};
 use core::sync::atomic::AtomicUsize as Real;
 
 use crate::sim;
@@ -38,10 +35,12 @@ impl AtomicUsize {
     #[inline]
     fn note(&self) {
         LAST_ADDR.store(&self.0 as *const _ as usize, Ordering::Relaxed);
+        sim::COUNTER_WIDTH.store(8, Ordering::Relaxed);
     }
     #[inline]
     pub fn load(&self, ord: Ordering) -> usize {
         if sim::engaged() {
+            sim::COUNTER_WIDTH.store(8, Ordering::Relaxed);
             sim::load(&self.0, ord)
         } else {
             self.note();
@@ -200,3 +199,140 @@ pub fn fence(ord: Ordering) {
         core::sync::atomic::fence(ord)
     }
 }
+
+
+/// Other integer widths a refactor of the counter might choose: same model, same scheduling.
+macro_rules! shim_int {
+    ($name:ident, $real:ident, $ty:ty, $w:expr) => {
+        #[repr(transparent)]
+        pub struct $name(core::sync::atomic::$real);
+        impl $name {
+            #[inline]
+            pub const fn new(v: $ty) -> $name {
+                $name(core::sync::atomic::$real::new(v))
+            }
+            #[inline]
+            pub fn into_inner(self) -> $ty {
+                self.0.into_inner()
+            }
+            #[inline]
+            pub fn get_mut(&mut self) -> &mut $ty {
+                self.0.get_mut()
+            }
+            #[inline]
+            fn addr(&self) -> usize {
+                &self.0 as *const _ as usize
+            }
+            #[inline]
+            fn pre(&self) {
+                sim::COUNTER_WIDTH.store($w, Ordering::Relaxed);
+            }
+            #[inline]
+            pub fn load(&self, ord: Ordering) -> $ty {
+                if sim::engaged() {
+                    self.pre();
+                    sim::load_at(self.addr(), &|| self.0.load(Ordering::Relaxed) as usize, ord) as $ty
+                } else {
+                    LAST_ADDR.store(self.addr(), Ordering::Relaxed);
+                    sim::COUNTER_WIDTH.store($w, Ordering::Relaxed);
+                    self.0.load(ord)
+                }
+            }
+            #[inline]
+            pub fn store(&self, v: $ty, ord: Ordering) {
+                if sim::engaged() {
+                    self.pre();
+                    sim::store_at(self.addr(), &|| self.0.load(Ordering::Relaxed) as usize, &|x| self.0.store(x as $ty, Ordering::Relaxed), v as usize, ord)
+                } else {
+                    LAST_ADDR.store(self.addr(), Ordering::Relaxed);
+                    self.0.store(v, ord)
+                }
+            }
+            #[inline]
+            fn rmw(&self, ord: Ordering, fail: Ordering, f: impl FnOnce($ty) -> Option<$ty>) -> $ty {
+                self.pre();
+                sim::rmw_at(
+                    self.addr(),
+                    &|| self.0.load(Ordering::Relaxed) as usize,
+                    &|x| self.0.store(x as $ty, Ordering::Relaxed),
+                    ord,
+                    fail,
+                    |o| f(o as $ty).map(|n| n as usize),
+                ) as $ty
+            }
+            #[inline]
+            pub fn swap(&self, v: $ty, ord: Ordering) -> $ty {
+                if sim::engaged() {
+                    self.rmw(ord, ord, |_| Some(v))
+                } else {
+                    LAST_ADDR.store(self.addr(), Ordering::Relaxed);
+                    self.0.swap(v, ord)
+                }
+            }
+            #[inline]
+            pub fn fetch_add(&self, v: $ty, ord: Ordering) -> $ty {
+                if sim::engaged() {
+                    self.rmw(ord, ord, |o| Some(o.wrapping_add(v)))
+                } else {
+                    LAST_ADDR.store(self.addr(), Ordering::Relaxed);
+                    self.0.fetch_add(v, ord)
+                }
+            }
+            #[inline]
+            pub fn fetch_sub(&self, v: $ty, ord: Ordering) -> $ty {
+                if sim::engaged() {
+                    self.rmw(ord, ord, |o| Some(o.wrapping_sub(v)))
+                } else {
+                    LAST_ADDR.store(self.addr(), Ordering::Relaxed);
+                    self.0.fetch_sub(v, ord)
+                }
+            }
+            #[inline]
+            pub fn compare_exchange(&self, current: $ty, new: $ty, success: Ordering, failure: Ordering) -> Result<$ty, $ty> {
+                if sim::engaged() {
+                    let old = self.rmw(success, failure, |o| if o == current { Some(new) } else { None });
+                    if old == current {
+                        Ok(old)
+                    } else {
+                        Err(old)
+                    }
+                } else {
+                    LAST_ADDR.store(self.addr(), Ordering::Relaxed);
+                    self.0.compare_exchange(current, new, success, failure)
+                }
+            }
+            #[inline]
+            pub fn compare_exchange_weak(&self, current: $ty, new: $ty, success: Ordering, failure: Ordering) -> Result<$ty, $ty> {
+                self.compare_exchange(current, new, success, failure)
+            }
+            #[inline]
+            pub fn fetch_update<F: FnMut($ty) -> Option<$ty>>(&self, set_order: Ordering, fetch_order: Ordering, mut f: F) -> Result<$ty, $ty> {
+                if sim::engaged() {
+                    let mut res = None;
+                    let old = self.rmw(set_order, fetch_order, |o| {
+                        res = f(o);
+                        res
+                    });
+                    if res.is_some() {
+                        Ok(old)
+                    } else {
+                        Err(old)
+                    }
+                } else {
+                    LAST_ADDR.store(self.addr(), Ordering::Relaxed);
+                    self.0.fetch_update(set_order, fetch_order, f)
+                }
+            }
+        }
+        impl core::fmt::Debug for $name {
+            fn fmt(&self, f: &mut core::fmt::Formatter<'_>) -> core::fmt::Result {
+                core::fmt::Debug::fmt(&self.0, f)
+            }
+        }
+    };
+}
+shim_int!(AtomicU32, AtomicU32, u32, 4);
+shim_int!(AtomicI32, AtomicI32, i32, 4);
+shim_int!(AtomicU64, AtomicU64, u64, 8);
+shim_int!(AtomicI64, AtomicI64, i64, 8);
+shim_int!(AtomicIsize, AtomicIsize, isize, 8);
